@@ -11,6 +11,7 @@ if [ "${WAVE:-1}" = "4" ]; then [ "$V" = "A" ] && DV=G; [ "$V" = "B" ] && DV=H; 
 if [ "${WAVE:-1}" = "5" ]; then [ "$V" = "A" ] && DV=I; [ "$V" = "B" ] && DV=J; fi
 if [ "${WAVE:-1}" = "6" ]; then [ "$V" = "A" ] && DV=K; [ "$V" = "B" ] && DV=L; fi
 if [ "${WAVE:-1}" = "7" ]; then [ "$V" = "A" ] && DV=M; [ "$V" = "B" ] && DV=N; fi
+if [ "${WAVE:-1}" = "8" ]; then [ "$V" = "A" ] && DV=O; [ "$V" = "B" ] && DV=P; fi
 PATCH=$SRC/patch.diff; [ -f $SRC/patch.rebased.diff ] && PATCH=$SRC/patch.rebased.diff
 export GOFLAGS=-mod=mod GOPROXY=off GOSUMDB=off GOTOOLCHAIN=local
 WT=/tmp/sv/$ID$V; rm -rf $WT; git -C /repo worktree prune; git -C /repo worktree add --detach $WT HEAD >/dev/null 2>&1 || { echo "worktree failed"; exit 2; }
